@@ -126,6 +126,17 @@ def vocab_program(rng, kind, drv):
         base = 0x10000 - mask
         lo = rng.choice([0x00, 0x01, 0x10])
         return {"src": f".map identifier=1 bank_range=0x{lo:x},0x3f addr_range=0x{base:x},0xffff mask=0x{mask:x}\n.map identifier=2 bank_range=0x7e,0x7f addr_range=0,0xffff mask=0x10000 writable=1\n*=0x018000\n.db 1,2,3\nl:\n*=0x028004\n.dl l\n", "rom": "low_rom"}
+    if kind == "include":
+        # the same file name, a different content each time (files are part of the input, not of the process state)
+        body = rng.choice([f".db {rng.randrange(256)}, {rng.randrange(256)}\n", f"inc_label:\nlda #{rng.randrange(256)}\n.dw inc_label\n",
+                           f".macro put(v) {{\n.db v, {rng.randrange(256)}\n}}\nput({rng.randrange(256)})\n", f"level = {rng.randrange(1, 200)}\n.db level\n"])
+        return {"src": "*=0x008000\n.include 'voc_inc.s'\n.db 0xee\nafter_inc:\n.dw after_inc\n", "rom": "low_rom", "files": {"voc_inc.s": body}}
+    if kind == "incbin":
+        ln = rng.choice([0, 1, 3, 5, 64])
+        return {"src": "*=0x008000\n.db 1\n.incbin 'voc.bin'\nafter_bin:\n.dw voc_bin__size\n.dl voc_bin, after_bin\n", "rom": "low_rom", "bins": {"voc.bin": bytes(rng.randrange(256) for _ in range(ln))}}
+    if kind == "ips":
+        recs = b"".join((rng.randrange(0x100, 0x4000)).to_bytes(3, "big") + (n_ := rng.randrange(1, 5)).to_bytes(2, "big") + bytes(rng.randrange(256) for _ in range(n_)) for _ in range(rng.randrange(1, 4)))
+        return {"src": f"*=0x008000\n.db 7\n.include_ips 'voc.ips', {rng.choice([0, 0x10, -0x10, 0x200])}\n.db 8\n", "rom": "low_rom", "bins": {"voc.ips": b"PATCH" + recs + b"EOF"}}
     if kind == "failing":
         return {"src": rng.choice(["*=0x008000\nlda.w nothing_defined\n", "*=0x008000\n.db 1\nlda.q 2\n", "*=0x008000\n.macro half(v) {\n.db v\n", "*=0x008000\n.db 1\n*=0x700000\n.db 2\n", "*=0x008000\nload(5)\n", ".include 'gone.s'\n", "*=0x008000\nSHARED := 3\n.db SHARED\nbra shared_label + 300\n"]), "rom": "low_rom"}
     if kind == "uses-undefined":
@@ -141,16 +152,16 @@ def run(ctx):
     tmp = core.tmpdir()
     try:
         s = core.Stream("S19-history", "histories of 1-5 assemblies (valid generated programs, programs defining macros / symbols / tables / custom .map layouts with different geometries, programs failing in each phase, different ROM types) followed by a probe (valid, failing, using names only a history program defines, loading its own table / map), all in one fresh interpreter, vs the probe alone in another fresh interpreter; the probe is also repeated; monitor: every module/class-level mutable object and function default of the a816 and script packages is fingerprinted before and after each assembly; non-trivial = distinct (history kinds, probe kind)")
-        kinds = ["macros", "symbols", "table", "map", "failing", "generated", "generated"]
-        probes = ["uses-undefined", "table", "map", "generated", "symbols", "failing", "macros"]
+        kinds = ["macros", "symbols", "table", "map", "failing", "generated", "generated", "include", "incbin", "ips"]
+        probes = ["uses-undefined", "table", "map", "generated", "symbols", "failing", "macros", "include", "incbin", "ips"]
         jobs = []
-        n = 48 if tier == "quick" else 400
+        n = 60 if tier == "quick" else 500
         for i in range(n):
             hk = [rng.choice(kinds) for _ in range(rng.randrange(1, 6))]
             pk = probes[i % len(probes)]
             # make histories relevant to the probe kind half of the time
             if rng.random() < 0.6:
-                hk[rng.randrange(len(hk))] = {"uses-undefined": rng.choice(["macros", "symbols", "table"]), "table": "table", "map": "map"}.get(pk, pk if pk in kinds else "generated")
+                hk[rng.randrange(len(hk))] = {"uses-undefined": rng.choice(["macros", "symbols", "table"]), "table": "table", "map": "map", "include": "include", "incbin": "incbin", "ips": "ips"}.get(pk, pk if pk in kinds else "generated")
             if pk == "uses-undefined":
                 hk = hk[:2] + ["macros", "symbols", "table"]   # the names the probe uses are all defined by the history
             history = [vocab_program(rng, k, drv) for k in hk]
